@@ -91,6 +91,8 @@ type cliCall struct {
 	// okOnly: the command works on every sequence and stops at the first failing one: a failure says nothing about
 	// the one the step asks for, and is not logged
 	okOnly bool
+	// extra: arguments of the command that the library step does not have (added to the logged arguments)
+	extra map[string]interface{}
 }
 
 // commands that handle every alignment of their input in turn and print one result per alignment
@@ -1016,8 +1018,28 @@ func (c *cliFront) plan(h *heapRun, o *obj, st Step) (*cliCall, string) {
 		for _, f := range old {
 			os.Remove(f)
 		}
-		return &cliCall{argv: []string{"build", "seqboot", "-n", "1", "--seed", strconv.Itoa(ai(a, "seed")), "--frac=" + fstr(afrac(a, "fp", "fq")),
-			"-o", filepath.Join(c.dir, "boot_")}, files: []string{filepath.Join(c.dir, "boot_0.fa")}}, ""
+		// one to three replicates, the LAST one is read back (whatever a replicate leaves behind for the next shows there);
+		// every other whole-length call is partitioned in two blocks: each block of the replicate is a bootstrap of the
+		// same block of the alignment
+		sd := ai(a, "seed")
+		if sd < 0 {
+			sd = -sd
+		}
+		nrep := 1 + (sd+o.al.Length())%3
+		argv := []string{"build", "seqboot", "-n", strconv.Itoa(nrep), "--seed", strconv.Itoa(ai(a, "seed")), "--frac=" + fstr(afrac(a, "fp", "fq")),
+			"-o", filepath.Join(c.dir, "boot_")}
+		call := &cliCall{files: []string{filepath.Join(c.dir, fmt.Sprintf("boot_%d.fa", nrep-1))}}
+		if L := o.al.Length(); L >= 2 && (ai(a, "fp") <= 0 || ai(a, "fp") >= ai(a, "fq")) && (sd/3)%2 == 0 {
+			k := 1 + (sd/6)%(L-1)
+			pf := filepath.Join(c.dir, "bootpart.txt")
+			if os.WriteFile(pf, []byte(fmt.Sprintf("M, p1 = 1-%d\nM, p2 = %d-%d\n", k, k+1, L)), 0o644) != nil {
+				return nil, "names"
+			}
+			argv = append(argv, "--partition", pf, "--out-partition", filepath.Join(c.dir, "bootpart_out.txt"))
+			call.extra = map[string]interface{}{"part": f64(k)}
+		}
+		call.argv = argv
+		return call, ""
 	case "Concat", "Append":
 		// the other alignment goes through a second file (same --alphabet for both)
 		oo := h.get(ai(a, "other"))
@@ -1421,8 +1443,19 @@ func fastaOf(o *obj) ([]byte, string, bool) {
 		fmt.Fprintf(&buf, ">%s\n%s\n", name, string(s))
 		return false
 	})
+	// (the alphabet is not asked of the library's readers - a reader that mistypes its input would then switch the
+	// command off exactly where it matters: the declared alphabet must only be able to carry the residues, by the
+	// harness's own table of the two alphabets)
+	for _, r := range rows {
+		for _, ch := range []byte(strings.ToUpper(r.s)) {
+			common := strings.IndexByte("ACBRG?-.*DKSHMNVXTWY", ch) >= 0
+			if !(common || (alpha == "nt" && (ch == 'U' || ch == 'O')) || (alpha == "aa" && strings.IndexByte("QEILFPZ", ch) >= 0)) {
+				return nil, "", false
+			}
+		}
+	}
 	p := fasta.NewParser(bytes.NewReader(buf.Bytes()))
-	p.Alphabet(o.sb.Alphabet())
+	p.Alphabet(align.BOTH)
 	var back align.SeqBag
 	var err error
 	if o.al != nil {
@@ -1430,7 +1463,7 @@ func fastaOf(o *obj) ([]byte, string, bool) {
 	} else {
 		back, err = p.ParseUnalign()
 	}
-	if err != nil || back.NbSequences() != len(rows) || back.Alphabet() != o.sb.Alphabet() {
+	if err != nil || back.NbSequences() != len(rows) {
 		return nil, "", false
 	}
 	i, same := 0, true
@@ -1541,6 +1574,16 @@ func (h *heapRun) cliStepOnce(env *Env, c *cliFront, id string, i int, st Step, 
 		A: map[string]interface{}{"op": st.Op, "a": st.A, "full": false, "argv": strings.Join(argv, " ")}}
 	if ev.A["a"] == nil {
 		ev.A["a"] = map[string]interface{}{"z": 0}
+	}
+	if call.extra != nil {
+		m := map[string]interface{}{}
+		for k, v := range st.A {
+			m[k] = v
+		}
+		for k, v := range call.extra {
+			m[k] = v
+		}
+		ev.A["a"] = m
 	}
 	added := 0
 	outText, errText := stdout.String(), stderr.String()
